@@ -361,7 +361,7 @@ type c14Call struct {
 
 var c14Methods = []string{mUnary, mBidi, mSrvStream, mCliStream}
 
-var c14Outcomes = []string{"ok", "error", "cancel", "precancel", "deadline", "reset", "early", "writefail", "latecancel"}
+var c14Outcomes = []string{"ok", "error", "cancel", "precancel", "deadline", "reset", "early", "writefail", "latecancel", "sendfail"}
 
 func c14Gen(rng *rand.Rand, seq int, deadlineOneIn int) c14Call {
 	c := c14Call{Kind: rng.Intn(4), NSend: 1 + rng.Intn(4)}
@@ -374,6 +374,9 @@ func c14Gen(rng *rand.Rand, seq int, deadlineOneIn int) c14Call {
 	}
 	if c.Kind == 0 && c.Outcome == "latecancel" {
 		c.Outcome = "cancel"
+	}
+	if (c.Kind == 0 || c.Kind == 2) && c.Outcome == "sendfail" {
+		c.Outcome = "error" // only calls on which the caller sends more than its first message
 	}
 	c.Cut = rng.Intn(c.NSend + 1)
 	c.Ms = 2 + rng.Intn(3)
@@ -458,6 +461,8 @@ func c14Exec(g *c14Rig, c c14Call) (stream bool) {
 		return c14ResetCall(g, c, method)
 	case "latecancel":
 		return c14LateCancel(g, c, method)
+	case "sendfail":
+		return c14SendFail(g, c, method)
 	}
 	// cancel, precancel, deadline
 	prog := "hold"
@@ -572,6 +577,27 @@ func c14LateCancel(g *c14Rig, c c14Call, method string) bool {
 		s.waitFor(func() bool { w := s.watch[id]; return w != nil && w.unregistered }, hangTimeout)
 	}
 	cancel()
+	for {
+		if _, err := recvB(cs); err != nil {
+			break
+		}
+	}
+	return true
+}
+
+// c14SendFail: the caller's SendMsg fails on a healthy connection (the codec rejects the message) while
+// the handler is still running: per the grpc contract that aborts the stream. The caller does NOT
+// cancel its context; it just receives until the stream reports its end. The server must be told.
+func c14SendFail(g *c14Rig, c c14Call, method string) bool {
+	ctx := metadata.AppendToOutgoingContext(context.Background(), "x-tag", c.Tag, "x-prog", "hold")
+	cs, err := g.cc.NewStream(ctx, descOf(method), method)
+	if err != nil {
+		return false
+	}
+	if c.Cut%2 == 0 {
+		sendB(cs, cliMsg(c.Tag, 0))
+	}
+	cs.SendMsg("not a proto message")
 	for {
 		if _, err := recvB(cs); err != nil {
 			break
